@@ -1574,14 +1574,79 @@ def check_C12(ck):
     if f and not ck.violations:
         f[2].update(property="C12", script=f[1])
         ck.violation(verif.write_replay("C12", f[0], f[2]), True)
+    # programs compiled against the generated header: stage A writes slots.hpp, stage B is the same source
+    # compiled with it; tampered headers must be rejected by the debug-build cross-check
+    import hprog
+    so_cases = []
+    n_so = 2 if ck.tier == "quick" else 8
+    for i in range(n_so):
+        perm = list(range(5))
+        rng.shuffle(perm)
+        checked = (i % 2 == 0)
+        tampers = []
+        if checked:
+            for _ in range(3 if ck.tier == "quick" else 5):
+                mname = rng.choice(["m1", "m2", "m3", "m4", "m5"])
+                ar = {"m1": 1, "m2": 1, "m3": 2, "m4": 3, "m5": 2}[mname]
+                which = "slot" if ar == 1 or rng.random() < 0.5 else "stride"
+                idx = rng.randrange(ar if which == "slot" else ar - 1)
+                tampers.append((mname, which, idx, rng.randint(1, 3)))
+        so_cases.append(("so%d" % i, perm, checked, tampers))
+    so_report = []
+    for name, perm, checked, tampers in so_cases:
+        r = hprog.static_offsets_case(name, perm, checked, tampers)
+        a, b = r.get("stageA", (None, "", "")), r.get("stageB", (None, "", "missing"))
+        la = [l for l in a[1].splitlines() if not l.startswith("static ")]
+        lb = [l for l in b[1].splitlines() if not l.startswith("static ")]
+        ok = a[0] == 0 and b[0] == 0 and la == lb and "static 1 1 1 1 1" in b[1] and "static 0 0 0 0 0" in a[1]
+        entry = {"case": name, "declaration_order": perm, "checked_policy": checked, "calls_compared": len([l for l in la if " -> " in l]),
+                 "stage_b_equals_stage_a": la == lb, "tampers": []}
+        if not ok and not ck.violations:
+            d_ = [x for x in zip(la, lb) if x[0] != x[1]][:3]
+            found = a[0] == 0 and b[0] == 0 and bool(d_)
+            ck.violation(verif.write_replay("C12", name, {
+                "property": "C12", "kind": ("failing input: a program compiled with the generated static offsets dispatches differently from the one reading them at run time"
+                                            if found else "the two-stage program does not build or run"),
+                "program": "tools/hprog.py static_offsets_case(%r, %r, %r)" % (name, perm, checked),
+                "differences(run time, static)": d_, "stageA": list(a)[0:1] + [a[2][-800:]], "stageB": list(b)[0:1] + [b[2][-800:]]}), found)
+        # what the installed arrays are, per method
+        inst = {}
+        for l in a[1].splitlines():
+            m_ = re.match(r"ss \S*YoMm2_S_(m\d)\S* \[(.*)\]", l)
+            if m_:
+                inst[m_.group(1)] = [int(x) for x in m_.group(2).split(",") if x]
+        for (mname, which, idx, delta), t_ in zip(tampers, r.get("tampers", [])):
+            desc, rc, so, se = t_
+            ar = {"m1": 1, "m2": 1, "m3": 2, "m4": 3, "m5": 2}[mname]
+            st = list(inst.get(mname, []))
+            pos = idx if which == "slot" else ar + idx
+            if pos < len(st):
+                st[pos] += delta
+            want = verif.run_model([("t", ["static-check %d %s | %s" % (ar, " ".join(map(str, st)), " ".join(map(str, inst.get(mname, []))))])]).get("t", [""])[0]
+            want_kind = want.replace("static-check ", "")
+            calls = [l for l in so.splitlines() if l.startswith(mname + "(")]
+            others_a = [l for l in la if " -> " in l and not l.startswith(mname + "(")]
+            others_t = [l for l in so.splitlines() if " -> " in l and not l.startswith(mname + "(")]
+            good = rc == 0 and calls and all(l.endswith("-> " + want_kind) for l in calls) and others_a == others_t and want_kind != "ok"
+            entry["tampers"].append({"tamper": desc, "model": want_kind, "rejected_calls": len(calls), "as_model": bool(good)})
+            if not good and not ck.violations:
+                ck.violation(verif.write_replay("C12", name + "-tamper", {
+                    "property": "C12", "kind": "failing input: wrong static offsets are not rejected by the debug-build cross-check as the model prescribes",
+                    "tamper": desc, "model": want, "calls": calls[:5], "rc": rc, "stderr": se[-800:],
+                    "program": "tools/hprog.py static_offsets_case(%r, %r, %r, %r)" % (name, perm, checked, tampers)}), rc == 0)
+        so_report.append(entry)
     ck.coverage = proof_coverage(ck, ["C12"], {
-        "evaluations": len(scripts), "distinct_nontrivial": len({repr(l) for _, l in scripts}),
+        "evaluations": len(scripts) + len(so_cases), "distinct_nontrivial": len({repr(l) for _, l in scripts}) + len(so_cases),
+        "static_offset_programs": so_report,
         "rule": "registries with methods of arity 1-4 (arity 3 and 4 over-represented) under a policy whose ids are std::type_info pointers; after update the "
-                "real generator writes the static offsets, whose text is compared with the model's and whose numbers are compared with the installed slots/strides",
+                "real generator writes the static offsets, whose text is compared with the model's and whose numbers are compared with the installed slots/strides; "
+                "two-stage programs: the same source compiled without and with the generated header must print the same installed arrays and the same result for every call "
+                "(145 calls over all class tuples), under a checked and an unchecked policy; headers with one number changed must make exactly the calls of that method raise "
+                "static_slot_error / static_stride_error as the model's cross-check prescribes, and leave the other methods alone",
         "methods_by_arity": ar_hist, "traces_validated_against_impl": len(scripts),
         "samples": [{"name": n_, "script": ls[-12:]} for n_, ls in scripts[:1]],
     })
-    ck.assumptions = ["programs compiled against the generated header (static_offsets specialisations, the debug cross-check) are exercised by the H-prog tier, not here"]
+    ck.assumptions = ["the two-stage programs use one class lattice (two roots joined by multiple inheritance) and five methods of arity 1-3 with non-virtual parameters in between; the order of the method declarations, which decides the slots, is random"]
 
 
 def check_C13(ck):
